@@ -35,6 +35,10 @@ RULE += (
          'namespace, title, REQUEST ...) for every form x value kind x '
          'single sources and the full set; binding through '
          '_.namespace(q=name). ')
+RULE += (
+         'Sources that change during the rendering (an object gains '
+         'the attribute between two reads; 5 binders x 36 reader '
+         'pairs); acquisition-wrapped callables in every source. ')
 ASSUMPTIONS = ['reference interpreter vf/model.py is trusted for (b)']
 
 SOURCES = harness.SOURCE_ORDER
